@@ -5,6 +5,7 @@ import TlsModel.Lemmas.Basic
 import TlsModel.Dtls
 import TlsModel.Props.C01
 import TlsModel.Props.C16
+import TlsModel.Props.C04
 namespace Tls
 variable {β : Type} [ByteLike β]
 
@@ -176,6 +177,109 @@ theorem dtls_not_fragment (t len mseq : Nat) (body r : List β) (ht : t < 256) (
   rw [take_append_exact]
   have : (decide (0 > 0) || decide (body.length < len)) = false := by simp [hnf]
   simp only [Res.bind, this]
+
+/-! ### the supported bodies decode to the values that were encoded -/
+
+def encDtlsClientHelloBody (c : DtlsClientHello β) : List β :=
+  encBE 2 c.version ++ (c.random ++ (encSid c.sessionId ++ (encLD 1 c.cookie ++ (encLD 2 (encU16s c.ciphers) ++
+    (encLD 1 (encBytes c.comp) ++ encOptExt c.ext)))))
+
+/-- cookie of 0..255 bytes; the other fields as for the TLS ClientHello -/
+def WFDtlsClientHello (c : DtlsClientHello β) : Prop :=
+  c.version < 65536 ∧ c.random.length = 32 ∧ WFSid c.sessionId ∧ c.cookie.length < 256 ∧ (∀ x ∈ c.ciphers, x < 65536) ∧
+  2 * c.ciphers.length < 65536 ∧ (∀ x ∈ c.comp, x < 256) ∧ c.comp.length < 256 ∧ WFOptExt c.ext
+
+theorem dtlsClientHello_body_roundtrip (c : DtlsClientHello β) (h : WFDtlsClientHello c) :
+    parseDtlsClientHello (encDtlsClientHelloBody c) = .ok [] (.clientHello c) := by
+  obtain ⟨hv, hr, hsid, hck, hci, hcl, hco, hcol, hext⟩ := h
+  obtain ⟨version, random, sid, cookie, ciphers, comp, ext⟩ := c
+  simp only at hv hr hsid hck hci hcl hco hcol hext
+  unfold parseDtlsClientHello encDtlsClientHelloBody
+  simp only []
+  rw [beU2_enc _ hv]; simp only [Res.bind_ok]
+  rw [take32_enc _ _ hr]; simp only [Res.bind_ok]
+  have hs := sid_enc sid hsid (encLD 1 cookie ++ (encLD 2 (encU16s ciphers) ++ (encLD 1 (encBytes comp) ++ encOptExt ext)))
+  cases hvv : verify (beU 1) (fun n => decide (n ≤ 32)) (encSid sid ++ (encLD 1 cookie ++ (encLD 2 (encU16s ciphers) ++ (encLD 1 (encBytes comp) ++ encOptExt ext)))) with
+  | ok r1 sidlen =>
+    rw [hvv] at hs; simp only [Res.bind_ok] at hs ⊢
+    rw [hs]; simp only [Res.bind_ok]
+    rw [lengthData1_enc _ hck]; simp only [Res.bind_ok]
+    have hcl' : (encU16s ciphers : List β).length < 65536 := by simp; omega
+    simp only [encLD, List.append_assoc]
+    rw [beU2_enc _ hcl']; simp only [Res.bind_ok]
+    rw [parseCipherSuites_enc ciphers hci]; simp only [Res.bind_ok]
+    have hcol' : (encBytes comp : List β).length < 256 := by simpa using hcol
+    rw [beU1_enc _ hcol']; simp only [Res.bind_ok]
+    rw [parseCompressionsAlgs_enc comp hco]; simp only [Res.bind_ok]
+    rw [optExtBlock_enc ext hext]
+    rfl
+  | incomplete n => rw [hvv] at hs; simp at hs
+  | error k => rw [hvv] at hs; simp at hs
+  | failure k => rw [hvv] at hs; simp at hs
+  | panic => rw [hvv] at hs; simp at hs
+
+theorem dtlsHelloVerifyRequest_body_roundtrip (version : Nat) (cookie : List β) (hv : version < 65536) (hc : cookie.length < 256) :
+    parseDtlsHelloVerifyRequest ((encBE 2 version : List β) ++ encLD 1 cookie) = .ok [] (.helloVerifyRequest version cookie) := by
+  unfold parseDtlsHelloVerifyRequest
+  rw [beU2_enc _ hv]; simp only [Res.bind_ok]
+  have := lengthData1_enc cookie hc []
+  simp only [List.append_nil] at this
+  rw [this]; rfl
+
+/-- the bodies of an unfragmented DTLS handshake message, by message type -/
+def dtlsTypeAndBody : DtlsBody β → Nat × List β
+  | .clientHello c => (0x01, encDtlsClientHelloBody c)
+  | .helloVerifyRequest v c => (0x03, encBE 2 v ++ encLD 1 c)
+  | .serverHello s => (0x02, encServerHelloBody s)
+  | .certificate c => (0x0b, encCertificateBody c)
+  | .serverDone d => (0x0e, d)
+  | .clientKeyExchange (.unknown d) => (0x10, d)
+  | .clientKeyExchange (.dh d) => (0x10, d)
+  | .clientKeyExchange (.ecdh d) => (0x10, d)
+  | .fragment d => (0xff, d)
+
+def WFDtlsBody : DtlsBody β → Prop
+  | .clientHello c => WFDtlsClientHello c
+  | .helloVerifyRequest v c => v < 65536 ∧ c.length < 256
+  | .serverHello s => s.version < 65536 ∧ s.random.length = 32 ∧ WFSid s.sessionId ∧ s.cipher < 65536 ∧ s.compression < 256 ∧ WFOptExt s.ext
+  | .certificate c => WFCertificate c
+  | .serverDone _ => True
+  | .clientKeyExchange (.unknown _) => True
+  | _ => False
+
+theorem dtlsBody_roundtrip (b : DtlsBody β) (hw : WFDtlsBody b) :
+    ∃ rem, parseDtlsBody (dtlsTypeAndBody b).1 (dtlsTypeAndBody b).2.length false (dtlsTypeAndBody b).2 = .ok rem b := by
+  cases b with
+  | clientHello c => exact ⟨[], by simp [parseDtlsBody, dtlsTypeAndBody, dtlsClientHello_body_roundtrip c hw]⟩
+  | helloVerifyRequest v c =>
+    exact ⟨[], by simp [parseDtlsBody, dtlsTypeAndBody, dtlsHelloVerifyRequest_body_roundtrip v c hw.1 hw.2]⟩
+  | serverHello s =>
+    obtain ⟨hv, hr, hsid, hc, hco, hext⟩ := hw
+    exact ⟨[], by simp [parseDtlsBody, dtlsTypeAndBody, mapP, serverHelloV12_body s hv hr hsid hc hco hext true (by simp), Res.map]⟩
+  | certificate c =>
+    have := certificate_body c hw []
+    simp only [List.append_nil] at this
+    exact ⟨[], by simp [parseDtlsBody, dtlsTypeAndBody, mapP, this, Res.map]⟩
+  | serverDone d => exact ⟨[], by simp [parseDtlsBody, dtlsTypeAndBody, mapP, take_all, Res.map]⟩
+  | clientKeyExchange c =>
+    cases c with
+    | unknown d => exact ⟨[], by simp [parseDtlsBody, dtlsTypeAndBody, mapP, take_all, Res.map]⟩
+    | dh d => exact absurd hw (by simp [WFDtlsBody])
+    | ecdh d => exact absurd hw (by simp [WFDtlsBody])
+  | fragment d => exact absurd hw (by simp [WFDtlsBody])
+
+/-- **unfragmented message round trip**: ClientHello (with cookie), HelloVerifyRequest, ServerHello, Certificate,
+    ServerHelloDone and ClientKeyExchange decode to the values that were encoded, the 12-byte header verbatim -/
+theorem dtls_handshake_roundtrip (b : DtlsBody β) (hw : WFDtlsBody b) (mseq : Nat) (hm : mseq < 65536)
+    (hlen : (dtlsTypeAndBody b).2.length < 2 ^ 24) (r : List β) :
+    parseDtlsMessageHandshake
+        (encDtlsHsHeader (dtlsTypeAndBody b).1 (dtlsTypeAndBody b).2.length mseq 0 (dtlsTypeAndBody b).2.length ++ (dtlsTypeAndBody b).2 ++ r)
+      = .ok r (.handshake ⟨(dtlsTypeAndBody b).1, (dtlsTypeAndBody b).2.length, mseq, 0, (dtlsTypeAndBody b).2.length, b⟩) := by
+  obtain ⟨rem, hb⟩ := dtlsBody_roundtrip b hw
+  have ht : (dtlsTypeAndBody b).1 < 256 := by
+    cases b <;> simp [dtlsTypeAndBody]
+    rename_i c; cases c <;> simp [dtlsTypeAndBody]
+  rw [dtls_not_fragment _ _ mseq _ r ht hlen hm hlen (by omega), hb]; rfl
 
 /-! ### several records in one datagram (C16 instance) -/
 
